@@ -483,12 +483,13 @@ def main(ctx):
     for name, gen in GROUPS:
         for case in gen(ctx):
             by_kind.setdefault((name, case[0].split()[0]), []).append(case)
-    first = True
+    # the corpus of minimised past failures (corpus/C20/*.ops) runs first, on its own
+    vlib.seq_correspondence(ctx, hcmd, dcmd, [], nontrivial=nontrivial, keep_prefix=0,
+                            label="tieB-corpus", max_reports=8)
     for (name, kind), cases in by_kind.items():
         vlib.seq_correspondence(ctx, hcmd, dcmd, cases, nontrivial=nontrivial, keep_prefix=0,
                                 label="tieB-%s-%s" % (name, kind), max_reports=2,
-                                corpus_dir=None if first else "/nonexistent")
-        first = False
+                                corpus_dir="/nonexistent")
     ctx.cov["exhaustive"] = True
     ctx.cov["explanation"] = ("exhaustive=true refers to the bounded spaces described in rule "
                               "(e.g. every (path,size) pair of the generated paths, all byte values); "
